@@ -1,5 +1,6 @@
 """Per-property check drivers."""
 import json
+import re
 import os
 import shutil
 import subprocess
@@ -236,3 +237,325 @@ def setup():
         return 2
     finally:
         shutil.rmtree(work, ignore_errors=True)
+
+
+# ---------------------------------------------------------------------------------------------
+# C20 — data races: the race-built real daemon under API / metrics load (process level) and the
+# race-built in-process harness.
+import l2  # noqa: E402
+import random  # noqa: E402
+import signal as _signal  # noqa: E402
+import threading  # noqa: E402
+
+
+FAN_T = r"internal/fans\.\(\*(HwMon|File|Cmd)Fan\)\."
+C20_GROUPS = [
+    # (group name, regex over "a|b" with a <= b lexicographically)
+    ("fan-state-marshalled-by-api-without-lock",
+     r"^internal/api\.getFans?\|(" + FAN_T + r"(GetPwm|GetRpm|SetRpmAvg|SetMinPwm|SetMaxPwm|SetStartPwm|AttachFanRpmCurveData|UpdateFanRpmCurveValue)|internal/controller\.\(\*DefaultFanController\)\.Run)$"),
+    ("fan-state-marshalled-by-api-without-lock",
+     r"^(" + FAN_T + r"(GetPwm|GetRpm|SetRpmAvg|SetMinPwm|SetMaxPwm|SetStartPwm|AttachFanRpmCurveData|UpdateFanRpmCurveValue)|internal/controller\.\(\*DefaultFanController\)\.Run)\|internal/fans\.SnapshotFanMap$"),
+    ("fan-cache-fields-written-by-concurrent-readers",
+     r"^" + FAN_T + r"(GetPwm|GetRpm|GetRpmAvg|SetRpmAvg)\|" + FAN_T + r"(GetPwm|GetRpm|GetRpmAvg|SetRpmAvg)$"),
+    ("curve-value-marshalled-by-api-without-lock",
+     r"^internal/api\.getCurves?\|internal/curves\.\(\*(Linear|Pid|Function)SpeedCurve\)\.SetValue$"),
+    ("curve-value-marshalled-by-api-without-lock",
+     r"^internal/curves\.\(\*(Linear|Pid|Function)SpeedCurve\)\.SetValue\|internal/curves\.SnapshotSpeedCurveMap$"),
+    ("sensor-average-marshalled-by-api-without-lock",
+     r"^internal/api\.getSensors?\|internal/sensors\.\(\*(Hwmon|File|Cmd)Sensor\)\.(SetMovingAvg|GetMovingAvg)$"),
+    ("sensor-average-marshalled-by-api-without-lock",
+     r"^internal/sensors\.\(\*(Hwmon|File|Cmd)Sensor\)\.(SetMovingAvg|GetMovingAvg)\|internal/sensors\.SnapshotSensorMap$"),
+    ("controller-statistics-read-by-metrics-collector-without-lock",
+     r"^internal/controller\.\(\*DefaultFanController\)\.GetStatistics\|internal/controller\.\(\*DefaultFanController\)\.(increaseMinPwmOffset|ensureNoThirdPartyIsMessingWithUs)$"),
+    ("controller-lastSetPwm-read-by-rpm-monitor-without-lock",
+     r"^internal/controller\.\(\*DefaultFanController\)\.getPwm\|internal/controller\.\(\*DefaultFanController\)\.setPwm$"),
+    ("pid-loop-of-a-curve-shared-by-several-fans",
+     r"^internal/util\.\(\*PidLoop\)\.Loop\|internal/util\.\(\*PidLoop\)\.Loop$"),
+]
+
+
+def c20_signature(a, b):
+    pair = "%s|%s" % (a, b)
+    for name, rx in C20_GROUPS:
+        if re.match(rx, pair):
+            return "race:" + name
+    return "race:%s" % pair
+
+
+def c20_config(work, tree_root, p_api, p_stat, variant):
+    cmd = os.path.join(work, "cmd")
+    os.makedirs(cmd, exist_ok=True)
+    l2.write(os.path.join(cmd, "pwm"), "100\n")
+    l2.write(os.path.join(cmd, "set.sh"), "#!/bin/sh\necho \"$1\" > %s/pwm\n" % cmd, 0o755)
+    l2.write(os.path.join(cmd, "get.sh"), "#!/bin/sh\ncat %s/pwm\n" % cmd, 0o755)
+    l2.write(os.path.join(cmd, "rpm.sh"), "#!/bin/sh\necho 1300\n", 0o755)
+    l2.write(os.path.join(cmd, "temp.sh"), "#!/bin/sh\necho 52000\n", 0o755)
+    l2.write(os.path.join(work, "filefan"), "90\n")
+    l2.write(os.path.join(work, "filefan_rpm"), "1100\n")
+    l2.write(os.path.join(work, "filesensor"), "48000\n")
+    rates = {0: ("2ms", "2ms", "3ms"), 1: ("1ms", "3ms", "2ms"), 2: ("5ms", "1ms", "5ms")}[variant % 3]
+    extra_fans = ""
+    if variant % 2 == 1:
+        extra_fans = """
+  - id: f6
+    hwmon:
+      platform: chipb
+      index: 1
+    neverStop: false
+    curve: pidc
+    controlAlgorithm: pid
+"""
+    return """dbPath: {work}/fan2go.db
+runFanInitializationInParallel: true
+maxRpmDiffForSettledFan: 20
+fanResponseDelay: 0
+tempSensorPollingRate: {t}
+tempRollingWindowSize: 3
+rpmPollingRate: {r}
+rpmRollingWindowSize: 2
+controllerAdjustmentTickRate: {c}
+api:
+  enabled: true
+  host: 127.0.0.1
+  port: {p_api}
+statistics:
+  enabled: true
+  port: {p_stat}
+sensors:
+  - id: cpu
+    hwmon:
+      platform: chipa
+      index: 1
+  - id: board
+    file:
+      path: {work}/filesensor
+  - id: ext
+    cmd:
+      exec: {work}/cmd/temp.sh
+curves:
+  - id: lin
+    linear:
+      sensor: cpu
+      min: 30
+      max: 70
+  - id: steps
+    linear:
+      sensor: board
+      steps:
+        - 30: 0
+        - 50: 100
+        - 80: 255
+  - id: pidc
+    pid:
+      sensor: board
+      setPoint: 50
+      p: -0.05
+      i: -0.005
+      d: -0.005
+  - id: avg
+    function:
+      type: average
+      curves:
+        - lin
+        - pidc
+        - steps
+  - id: mx
+    function:
+      type: maximum
+      curves:
+        - lin
+        - avg
+fans:
+  - id: f1
+    hwmon:
+      platform: chipa
+      rpmChannel: 1
+    neverStop: true
+    minPwm: 20
+    maxPwm: 250
+    curve: lin
+    controlAlgorithm: direct
+  - id: f2
+    hwmon:
+      platform: chipa
+      rpmChannel: 2
+    neverStop: false
+    curve: lin
+  - id: f3
+    hwmon:
+      platform: chipa
+      rpmChannel: 3
+      pwmChannel: 3
+    neverStop: true
+    curve: avg
+    controlAlgorithm:
+      direct:
+        maxPwmChangePerCycle: 5
+  - id: f4
+    file:
+      path: {work}/filefan
+      rpmPath: {work}/filefan_rpm
+    neverStop: false
+    curve: mx
+    controlAlgorithm: direct
+  - id: f5
+    cmd:
+      setPwm:
+        exec: {work}/cmd/set.sh
+        args: [ "%pwm%" ]
+      getPwm:
+        exec: {work}/cmd/get.sh
+      getRpm:
+        exec: {work}/cmd/rpm.sh
+    neverStop: false
+    curve: pidc
+    controlAlgorithm: direct{extra}
+""".format(work=work, t=rates[0], r=rates[1], c=rates[2], p_api=p_api, p_stat=p_stat, extra=extra_fans)
+
+
+def c20_one_run(binary, work, idx, duration, merged, rng):
+    """One topology; the daemon is restarted when the Go runtime aborts it (a reported violation of its own),
+    until `duration` seconds of load have been applied."""
+    rd = os.path.join(work, "run%d" % idx)
+    os.makedirs(rd, exist_ok=True)
+    tree = l2.Tree(os.path.join(rd, "hwmon"))
+    chipa = tree.chip("chipa", fans=(1, 2, 3), temps=(1, 2), orig_mode=2, orig_pwm=110, rpm=1200)
+    tree.chip("chipb", fans=(1,), temps=(1,), orig_mode=2, orig_pwm=80, rpm=900)
+    nfans = 6 if idx % 2 == 1 else 5
+    applied = 0.0
+    starts = 0
+    all_counts = {}
+    while applied < duration and starts < 8:
+        starts += 1
+        p_api, p_stat = l2.free_port(), l2.free_port()
+        cfg = c20_config(rd, tree.root, p_api, p_stat, idx)
+        racelog = os.path.join(rd, "race%d" % starts)
+        d = l2.Daemon(binary, rd, cfg, tree.root, driver=None, timescale=20, gorace="halt_on_error=0 exitcode=0 history_size=5 log_path=%s" % racelog, name="daemon%d" % starts)
+        try:
+            ok = d.wait_for(r"(?s)(Starting controller loop.*){%d}" % nfans, 120)
+            if not ok:
+                merged.inconclusive.append("run %d: daemon did not reach regulation for all fans: %s" % (idx, d.output()[-800:].replace("\n", " | ")))
+                return
+            base = "http://127.0.0.1:%d" % p_api
+            urls = [base + p for p in ("/sensor/", "/sensor/cpu/", "/sensor/board/", "/curve/", "/curve/lin/", "/curve/avg/", "/curve/pidc/", "/alive/", "/fan/f5/")]
+            # the fan endpoints iterate the live RPM-curve map; the Go runtime aborts the daemon quickly when they are
+            # hit at full rate (known finding), so they are mixed in at a lower rate after the first start
+            fan_urls = [base + p for p in ("/fan/", "/fan/f1/", "/fan/f3/", "/fan/f4/")]
+            urls += fan_urls if starts == 1 else fan_urls[starts % 4:starts % 4 + 1]
+            urls += ["http://127.0.0.1:%d/metrics" % p_stat] * 3
+            load = l2.HttpLoad(urls, threads=8)
+            load.start()
+            stop = threading.Event()
+
+            def plant():
+                # temperature ramps and short stall episodes of the never-stop fans (atomic replace: the daemon never sees a half-written file)
+                k = 0
+                while not stop.is_set():
+                    k += 1
+                    t = 35000 + (k * 700) % 40000
+                    l2.write_atomic(os.path.join(chipa, "temp1_input"), "%d\n" % t)
+                    l2.write_atomic(os.path.join(rd, "filesensor"), "%d\n" % (80000 - t))
+                    if k % 40 < 3:
+                        l2.write_atomic(os.path.join(chipa, "fan1_input"), "0\n")
+                        l2.write_atomic(os.path.join(chipa, "fan3_input"), "0\n")
+                    else:
+                        l2.write_atomic(os.path.join(chipa, "fan1_input"), "%d\n" % (1000 + k % 300))
+                        l2.write_atomic(os.path.join(chipa, "fan3_input"), "%d\n" % (1100 + k % 200))
+                    time.sleep(0.01)
+            pt = threading.Thread(target=plant, daemon=True)
+            pt.start()
+            t_load = time.time()
+            while time.time() - t_load < duration - applied and d.p.poll() is None:
+                time.sleep(0.05)
+            applied += time.time() - t_load
+            stop.set()
+            pt.join(timeout=5)
+            counts, errors = load.finish()
+            died = d.p.poll() is not None
+            if not died:
+                d.signal(_signal.SIGTERM)
+                if d.wait(60) is None:
+                    merged.inconclusive.append("run %d: daemon did not exit within 60 s after SIGTERM" % idx)
+            out = d.output()
+            fatal = re.search(r"^fatal error: (.*)$", out, re.M)
+            if fatal:
+                merged.add_violation("daemon-aborted:" + re.sub(r"\W+", "-", fatal.group(1))[:60], "run %d: %s\n%s" % (idx, fatal.group(0), out[out.find("fatal error"):][:1500]), {"run": idx})
+                merged.counters["daemon_starts_aborted_by_runtime"] = merged.counters.get("daemon_starts_aborted_by_runtime", 0) + 1
+            elif l2.has_panic(out):
+                pm = l2.has_panic(out)
+                merged.add_violation("daemon-panicked:" + re.sub(r"0x[0-9a-f]+|\d+", "N", pm)[:80], "run %d: %s\n%s" % (idx, pm, out[out.find(pm):][:1500]), {"run": idx})
+            elif died:
+                merged.counters["daemon_exited_on_its_own"] = merged.counters.get("daemon_exited_on_its_own", 0) + 1
+            merged.counters["http_requests"] = merged.counters.get("http_requests", 0) + sum(counts.values())
+            merged.counters["daemon_starts"] = merged.counters.get("daemon_starts", 0) + 1
+            for path, n in counts.items():
+                key = re.sub(r"/(f\d|cpu|board|lin|avg|pidc)/", "/<id>/", path)
+                merged.sets.setdefault("endpoints", set()).add(key)
+                merged.counters["req:" + key] = merged.counters.get("req:" + key, 0) + n
+                all_counts[key] = all_counts.get(key, 0) + n
+            merged.evaluations += sum(counts.values())
+        finally:
+            d.close()
+    reports = l2.parse_race_logs(rd, "race")
+    merged.counters["race_report_blocks"] = merged.counters.get("race_report_blocks", 0) + len(reports)
+    for rep in reports:
+        a, b = rep["pair"]
+        if "internal/verif" in a or "internal/verif" in b:
+            merged.inconclusive.append("race report inside the harness itself: %s | %s" % (a, b))
+            continue
+        sig = c20_signature(a, b)
+        merged.add_violation(sig, "run %d: %s | %s\n%s" % (idx, a, b, rep["text"][:2500]), {"run": idx, "pair": [a, b]})
+        merged.nontrivial.add("pair:%s|%s" % (a, b))
+        merged.sets.setdefault("race_pairs", set()).add("%s|%s" % (a, b))
+    if len(merged.samples) < 2:
+        merged.samples.append({"kind": "daemon-run-%d" % idx, "fans": nfans, "seconds_of_load": round(applied, 1), "daemon_starts": starts, "requests": all_counts, "race_report_blocks": len(reports)})
+
+
+def c20(p, tier, work, t0, replay):
+    src = vbuild.prepare(work)
+    binary = vbuild.build(work, src, ".", os.path.join(work, "fan2go-race"), race=True)
+    merged = vcheck.Merged(p)
+    rng = random.Random(vcheck.seed())
+    runs, duration = (2, 8) if tier == "quick" else (16, 25)
+    par = 2 if tier == "quick" else 4
+    import concurrent.futures
+    with concurrent.futures.ThreadPoolExecutor(max_workers=par) as ex:
+        futs = [ex.submit(c20_one_run, binary, work, vcheck.seed() * 100 + i, duration, merged, rng) for i in range(runs)]
+        for f in futs:
+            f.result()
+    # in-process race harness: the same objects at higher rates, without the start-up waits
+    vh = vbuild.build(work, src, "./internal/verif/vh", os.path.join(work, "vh-race"), race=True)
+    racelog = os.path.join(work, "vhrace")
+    sub = vcheck.run_vh_batches(vh, "C20", tier, 2 if tier == "quick" else 8, work, 600 if tier == "quick" else 3000,
+                                env={"GORACE": "halt_on_error=0 exitcode=0 history_size=5 log_path=%s" % racelog})
+    merged.evaluations += sub.evaluations
+    merged.inconclusive += sub.inconclusive
+    for k, v in sub.counters.items():
+        merged.counters[k] = merged.counters.get(k, 0) + v
+    for sig, v in sub.violations.items():
+        if "concurrent map" in sig or "concurrent map" in v["detail"]:
+            m = re.search(r"fatal error: (concurrent map [a-z ]+)", v["detail"])
+            sig = "daemon-aborted:" + re.sub(r"\W+", "-", m.group(1) if m else "concurrent map access")[:60]
+        merged.add_violation(sig, v["detail"], v.get("replay"), v.get("count", 1))
+    for rep in l2.parse_race_logs(work, "vhrace"):
+        a, b = rep["pair"]
+        merged.counters["race_report_blocks"] = merged.counters.get("race_report_blocks", 0) + 1
+        sig = c20_signature(a, b)
+        merged.add_violation(sig, "in-process harness: %s | %s\n%s" % (a, b, rep["text"][:2500]), {"pair": [a, b]})
+        merged.nontrivial.add("pair:%s|%s" % (a, b))
+        merged.sets.setdefault("race_pairs", set()).add("%s|%s" % (a, b))
+    merged.nontrivial.update("endpoint:" + e for e in merged.sets.get("endpoints", ()))
+    if merged.counters.get("http_requests", 0) < 500:
+        merged.inconclusive.append("only %d HTTP requests were served over all daemon runs" % merged.counters.get("http_requests", 0))
+    rule = ("the real daemon built with -race (5-6 fans of hwmon/file/cmd kind sharing linear, PID and nested function curves and hwmon/file/cmd sensors; 1-5 ms polling and tick "
+            "rates; stall episodes; API and Prometheus endpoints enabled) under 8 HTTP client threads hitting list, item and metrics endpoints for %d s per run, %d runs, then SIGTERM; "
+            "plus the race-built in-process harness driving the same object kinds at higher rates. Reports are read from the GORACE log files and identified by the unordered pair "
+            "of innermost fan2go frames of the two accesses (line numbers stripped). Every pair not listed in known_findings.txt is a violation. distinct_nontrivial counts distinct "
+            "race pairs observed plus distinct endpoint kinds served" % (duration, runs))
+    return vcheck.finish(p, tier, "exploration", merged, rule,
+                         ["the Go race detector only reports races on executions it observes (no false positives, many false negatives)",
+                          "no monitor locks on the I/O path in race builds: the virtual driver is disabled (plain files, external plant thread)",
+                          "gosensors stand-in"], t0)
+
+
+PROPS["C20"] = c20
